@@ -166,10 +166,46 @@ static void compute_levels(
     }
 }
 
+/**
+ * The flat element list of a footer must describe exactly one tree, rooted at
+ * element 0, in depth-first order: every element named, every child count
+ * non-negative and within the list, no element left over. Everything that
+ * indexes leaves or walks children afterwards relies on this.
+ */
+static const char* schema_list_defect(const parquet_schema_element_t* elements, int32_t count) {
+    if (count < 1 || !elements) {
+        return "Schema is empty";
+    }
+    int64_t open = 1;  /* elements still expected: the root */
+    for (int32_t i = 0; i < count; i++) {
+        if (open == 0) {
+            return "Schema has elements outside the root's tree";
+        }
+        if (!elements[i].name) {
+            return "Schema element without a name";
+        }
+        int32_t children = elements[i].num_children;
+        if (children < 0 || children > count - 1 - i) {
+            return "Schema element with an invalid child count";
+        }
+        open += children - 1;
+    }
+    if (open != 0) {
+        return "Schema tree is incomplete";
+    }
+    return NULL;
+}
+
 carquet_schema_t* build_schema(
     carquet_arena_t* arena,
     const parquet_file_metadata_t* metadata,
     carquet_error_t* error) {
+
+    const char* defect = schema_list_defect(metadata->schema, metadata->num_schema_elements);
+    if (defect) {
+        CARQUET_SET_ERROR(error, CARQUET_ERROR_INVALID_SCHEMA, "%s", defect);
+        return NULL;
+    }
 
     carquet_schema_t* schema = carquet_arena_calloc(arena, 1, sizeof(carquet_schema_t));
     if (!schema) {
